@@ -220,3 +220,42 @@ def stackRun (scope skips : Nat → Bool) : List Event → List Nat → Option (
     | _, _ => stackRun scope skips rest st
 
 end Visitor
+
+/-! ### handler dispatch: `_BaseVisitor.visit` / `_BaseVisitor.depart`
+
+`getattr(self, 'visit_' + cls, getattr(self, ('visit_' + cls).lower(), self.unknown_visit))`.
+A visitor is the list of method names it defines; class names are strings. -/
+namespace Visitor
+
+inductive Handler
+  | exact (name : String)      -- `visit_<Class>` / `depart_<Class>` as written
+  | lower (name : String)      -- the lower-cased method name
+  | unknown                    -- `unknown_visit` / `unknown_departure`
+  deriving DecidableEq, Repr
+
+def lowerAscii (s : String) : String := String.ofList (s.toList.map Char.toLower)
+
+/-- which method handles `cls`, for prefix `"visit_"` or `"depart_"` -/
+def dispatch (defined : List String) (pre cls : String) : Handler :=
+  let m := pre ++ cls
+  if m ∈ defined then .exact m
+  else if lowerAscii m ∈ defined then .lower (lowerAscii m)
+  else .unknown
+
+/-- the family a handler belongs to, forgetting the prefix: what "the same handler on the way in and
+on the way out" means -/
+inductive Family | exact | lower | unknown
+  deriving DecidableEq, Repr
+
+def Handler.family : Handler → Family
+  | .exact _ => .exact
+  | .lower _ => .lower
+  | .unknown => .unknown
+
+/-- handlers come in pairs: `visit_X` is defined exactly when `depart_X` is, for the two spellings
+that can be looked up for `cls` -/
+def Paired (defined : List String) (cls : String) : Prop :=
+  (("visit_" ++ cls) ∈ defined ↔ ("depart_" ++ cls) ∈ defined) ∧
+  (lowerAscii ("visit_" ++ cls) ∈ defined ↔ lowerAscii ("depart_" ++ cls) ∈ defined)
+
+end Visitor
